@@ -293,13 +293,7 @@ def get_oaa_lcu_circuit(qu_op: QubitOperator, control: Union[int, List[int]] = N
 
     amplified_lcu_circuit = w + flip_op + w.inverse() + flip_op + w
 
-    # Added gates below because current implementation applies -1j*exp(-1j*H*t) and global phase
-    # matters for controlled operations
-    # TODO: Find a way to incorporate this phase into the time propagation natively.
-    if control is not None:
-        gates = [Gate("CRZ", q, control=control, parameter=np.pi) for q in qu_op_qubits]
-        gates += [Gate("CPHASE", q, control=control, parameter=-np.pi) for q in qu_op_qubits]
-        amplified_lcu_circuit += Circuit(gates)
+    # The amplified circuit applies qu_op itself (no extra global phase), also on the controlled subspace.
 
     return amplified_lcu_circuit
 
